@@ -103,9 +103,66 @@ Theorem C05_truncated_image_is_prefix : forall recs z c,
     recs = recs1 ++ recs2 /\
     decode_all [img_trunc c file] = (stored 0 recs1, v, blen (fst (encode_all 0 recs1))) /\
     (recs2 = [] \/ c < blen (fst (encode_all 0 (recs1 ++ firstn 1 recs2)))) /\
-    verdict_ok v.
+    verdict_ok v /\
+    btake (blen (fst (encode_all 0 recs1))) (img_trunc c file) = fst (encode_all 0 recs1).
 Proof. exact trunc_image_decodes. Qed.
 Print Assumptions C05_truncated_image_is_prefix.
+
+(* ---------- (d) any damage (torn sectors, garbage), not only a cut ----------
+   The image agrees with the written stream up to the start of a frame; that frame's length field is either
+   zero (its sector was lost) or intact with a body the decoder does not accept (NoCrcCollision for this
+   image, evaluated by the check). Then exactly the records before that frame are returned. *)
+Theorem C05_damaged_frame_stops_decoding : forall recs1 x junk,
+  Forall enc_ok recs1 -> enc_ok x ->
+  let crc1 := snd (encode_all 0 recs1) in
+  let n := blen (payload_of crc1 x) in
+  ((exists t, junk = zeros 8 ++ t) \/
+   (exists body' t, junk = le64 (frame_len_field n) ++ body' ++ t /\ blen body' = n + frame_pad n /\
+                    accepts crc1 n body' = false)) ->
+  exists v, decode_all [fst (encode_all 0 recs1) ++ junk] = (stored 0 recs1, v, blen (fst (encode_all 0 recs1)))
+            /\ verdict_ok v.
+Proof. exact damaged_frame_stops_decoding. Qed.
+Print Assumptions C05_damaged_frame_stops_decoding.
+
+(* ---------- Repair ---------- *)
+(* on the last file Repair does exactly what the decoder's verdict says: nothing at a clean end, truncate
+   at lastValidOff for io.ErrUnexpectedEOF / size limit, refuse otherwise *)
+Theorem C05_repair_follows_verdict : forall bs, repair_last bs = repair_of_verdict (decode_all [bs]).
+Proof. exact repair_last_spec. Qed.
+Print Assumptions C05_repair_follows_verdict.
+
+(* ... and after a torn tail it leaves exactly the decoded prefix, which then reads back with a clean end *)
+Theorem C05_repair_yields_prefix : forall recs1 img,
+  Forall enc_ok recs1 ->
+  decode_all [img] = (stored 0 recs1, Some EUeof, blen (fst (encode_all 0 recs1))) ->
+  btake (blen (fst (encode_all 0 recs1))) img = fst (encode_all 0 recs1) ->
+  repair_last img = RepTrunc (blen (fst (encode_all 0 recs1))) /\
+  decode_all [btake (blen (fst (encode_all 0 recs1))) img] =
+    (stored 0 recs1, None, blen (fst (encode_all 0 recs1))).
+Proof. exact repair_yields_prefix. Qed.
+Print Assumptions C05_repair_yields_prefix.
+
+(* ---------- the writer: what Save / SaveSnapshot / cut / Sync really put into the tail ---------- *)
+(* for every history of well-formed operations, in either fsync mode: the tail segment is the encoder's
+   stream of well-formed records, the page-writer accounts for every byte, and every sync point recorded on
+   the tail is the end of a prefix of those records *)
+Theorem C05_writer_tail_is_stream : forall opt seg meta ops,
+  data_ok meta -> Forall op_wf ops -> tail_inv (w_run opt seg meta ops).
+Proof. exact w_run_inv. Qed.
+Print Assumptions C05_writer_tail_is_stream.
+
+(* (4) synced ⊑ p for the sync points the code really produces (W1: with optimizedFsync these are only
+   vote/term changes and explicit Sync): every image of the first segment that keeps the bytes covered by
+   the last completed fdatasync returns the records saved before it, whatever the rest of the image is *)
+Theorem C05_synced_records_survive : forall opt seg meta ops s junk,
+  data_ok meta -> Forall op_wf ops ->
+  let w := w_run opt seg meta ops in
+  w_seq w = 0 -> w_sync w = Some s -> sy_seq s = w_seq w ->
+  exists r1 r2,
+    w_tail w = fst (encode_all 0 (r1 ++ r2)) /\ sy_off s = blen (fst (encode_all 0 r1)) /\
+    exists rs v off, decode_all [btake (sy_off s) (w_tail w) ++ junk] = (stored 0 r1 ++ rs, v, off).
+Proof. exact synced_records_survive. Qed.
+Print Assumptions C05_synced_records_survive.
 
 (* ---------- (c) ReadAll's fold: last write per index wins, what follows is truncated ---------- *)
 Theorem C05_readall_entries_visible : forall start es ents,
@@ -164,6 +221,21 @@ Print Assumptions C05_full_refuted.
 (* CRC-32C("123456789") = 0xE3069283, the standard check value *)
 Example C05_ex_crc_check : crc32c [49;50;51;52;53;54;55;56;57] = 3808858755.
 Proof. vm_compute. reflexivity. Qed.
+
+(* a concrete history is well formed, ends in a sync point on its first segment *)
+Example C05_ex_history :
+  let ops := [OSave {| hs_term := 1; hs_vote := 1; hs_commit := 0 |}
+                [{| e_type := 0; e_term := 1; e_index := 1; e_data := Some [104; 105]; e_id := 7; e_dtype := 0; e_ts := 0 |}]] in
+  data_ok (Some [1;2;3]) /\ Forall op_wf ops /\
+  let w := w_run false 512 (Some [1;2;3]) ops in
+  w_seq w = 0 /\ exists s, w_sync w = Some s /\ sy_seq s = 0 /\ sy_off s = blen (w_tail w) /\ sy_rec s = 3.
+Proof.
+  cbv zeta. split; [split; [repeat constructor; lia|cbn; lia]|].
+  split.
+  - constructor; [|constructor]. cbn [op_wf]. split; [unfold hs_wf; cbn; repeat split; reflexivity|].
+    constructor; [|constructor]. split; [constructor; cbn; try reflexivity|split; [repeat constructor; lia|cbn; lia]].
+  - split; [vm_compute; reflexivity|]. eexists. vm_compute. repeat split.
+Qed.
 
 (* a concrete history satisfies the hypotheses of the prefix theorem's stream and decodes back *)
 Example C05_ex_stream :
